@@ -104,12 +104,21 @@ func (h *H) runChk(k chk, rank int64, cs Case) {
 	impl, pan := call(k.f)
 	c.Eval(1)
 	if pan != "" {
-		c.Violate(k.fn+" | "+k.region+" | panic", fmt.Sprintf("%s panics: %s (reference %s)", k.call, pan, refString(k.ref)), rank, cs)
-		c.Outcome(k.fn + "|" + k.region + "|panic")
+		kind := "panic"
+		switch k.ref.Kind {
+		case 'n':
+			kind = "panic-where-finite"
+		case 'o':
+			kind = "panic-where-overflow"
+		case 'u', 'z':
+			kind = "panic-where-zero-or-underflow"
+		}
+		c.Violate(k.fn+" | "+k.region+" | "+kind, fmt.Sprintf("%s panics: %s (reference %s)", k.call, pan, refString(k.ref)), rank, cs)
+		c.Outcome(k.fn + "|" + k.region + "|" + kind)
 		return
 	}
 	v := judge(impl, k.ref, k.sens, k.extra, k.floor)
-	if k.lax {
+	if k.lax && k.ref.Kind != 'o' {
 		if finite(impl) {
 			v = verdict{ok: true, class: "prefix-underflows:finite"}
 		} else {
@@ -283,12 +292,12 @@ func main() {
 	vf.Main(vf.Spec{
 		ID:    "C13",
 		Level: "exploration",
-		Rule: "exhaustive enumeration of finite float64 sub-lattices: L1(m,E) = all values with <= m significant bits and binary exponent in [-E,E] (univariate m=8/6,E=40; (a,x) and (nu,x) m=4/3,E=12/10), L2 = integers and half-integers <= 60/20 as orders/poles x L1, L3 = every algorithm-selection threshold of the source +-{0..3} ulp and x(1+-1e-6), x(1+-1e-3), including the two-argument selection curves, plus extreme exponents; every float32 value of the domain (quick: every float32 with <= 15 significant bits) for the univariate identities. " +
+		Rule: "exhaustive enumeration of finite float64 sub-lattices: L1(m,E) = all values with <= m significant bits and binary exponent in [-E,E] (univariate m=8/6,E=40; (a,x) and (nu,x) m=4/3,E=12/10), L2 = integers and half-integers <= 60/20 as orders/poles x L1, L3 = every algorithm-selection threshold of the source +-{0..3} ulp and x(1+-1e-6), x(1+-1e-3), including the two-argument selection curves, plus extreme exponents; L5 (orders.go) = every branch condition in the order / shape parameter and every overflow-triggered rescaling branch: polygamma n in {20..28, 64, 100, 113..117, 128, 149..152, 169..172, 200, 256, 500, 1000, 5000}, Bessel |nu| in {60.5 .. 5000.5, 100 .. 5000} both signs, incomplete gamma a in {9.7 .. 1e6} with x = a, a(1+-2^-k), a+-709/744, a exp(+-709/a), 745a, Mgamma k in {5,6,8,16,32}, factorial/Bernoulli limits, zeta reflection s down to -100000.5, each crossed with a fixed argument lattice that reaches the branch (quick: a subset of the orders); every float32 value of the domain (quick: every float32 with <= 15 significant bits) for the univariate identities. " +
 			"A case is one (function, argument tuple); it is non-trivial when a finite reference value (or an exact zero / exact -Inf) is compared numerically, or an identity is evaluated with all members finite; points are distinct by construction (deduplicated lattices)",
 		Assume: []string{
 			"reference tables were generated with mpmath 1.3.0 at 60 digits (ref/c13/gen.py) and are verified by sha256 at start",
 			"tolerance C*u*max(1,cond)*|ref| with C=256 and cond = sum of |arg * df/darg / f| from the reference side; results below 1e-290 or above 1e300 are only required to under/overflow gracefully",
-			"math.Gamma/Lgamma/Erfc/Exp/Log of the Go runtime are trusted to a few ulp",
+			"math.Gamma/Lgamma/Erfc/Exp/Log of the Go runtime are trusted to a few ulp; math.Log of go1.23 on amd64 (log_amd64.s) is wrong for subnormal arguments (Log(5e-324) = -709.09 instead of -744.44), so the two-argument lattices keep x >= 2^-1000, where neither x nor the x/10 formed by the library is subnormal",
 			"BernoulliNumber(1) may be +1/2 or -1/2",
 		},
 		Run:       run,
